@@ -169,7 +169,7 @@ def random_call(rng):
             ds = [d for d in range(lo, min(S, 64) + 1) if S % d == 0]
             C = rng.choice(ds) if ds else C
     cfg = dict(kind=kind, nobs=nobs, S=S, C=C, burn=rng.choice([0, 1, 2, 5]), steps=rng.choice([0, 1, 1, 2, 3]),
-               L=L, ow=rng.random() < 0.5)
+               L=L, ow=rng.random() < 0.5, conv=(L > 0 and rng.random() < 0.35))
     return cfg, n, obs_idx, rng.choice(sr.STATE_KINDS)
 
 
@@ -180,7 +180,7 @@ def phase_traces(chk, tier, seed, rng, tally):
         cfg, n, obs_idx, skind = random_call(rng)
         st = sr.make_state(skind, n, seed + 7 * i)
         names = [sr.OBS[j][0] for j in obs_idx]
-        user = sr.user_buffer(cfg["L"], n, seed + i)
+        user = sr.user_buffer(cfg["L"], n, seed + i, cfg.get("conv", False))
         sr.torch.manual_seed(seed + i)
         out = sr.real_call(cfg, st, sr.make_obs(obs_idx), user)
         meta = dict(cfg=cfg, observables=names, state=skind, num_visible=n,
